@@ -12,7 +12,7 @@ TABLE = {
     "C03": (["eras", "bankmixed", "corners", "bank"], ["staking", "dups", "admission"], [1, 6], False, "balances and batch status"),
     "C04": (["eras", "bank", "zeroing", "corners", "align"], ["staking", "rates", "admission"], [1], True, "balances (per-asset supply is their column sum)"),
     "C06": (["dups", "corners", "gaps"], ["eras", "bank"], [1, 6, 9, 10], True, "balances, batch status, holding and relation rows"),
-    "C07": (["gaps", "corners"], ["eras", "admission", "bank", "avgzero"], [1, 6, 7, 9], True, "balances, execution height and converted amounts"),
+    "C07": (["gaps", "corners", "avgzero"], ["eras", "admission", "bank"], [1, 6, 7, 9], True, "balances, execution height and converted amounts"),
     "C08": (["malformed", "dups", "corners"], ["eras", "top100", "zerocollide", "bankmixed"], [13, 14], False, "which blocks apply"),
     "C09": (["gaps"], ["eras", "admission", "avgzero"], [1, 6, 7], True, "balances and converted amounts (pricing)"),
     "C11": (["eras", "corners"], ["top100", "rates", "staking", "zeroing"], [1, 6, 7, 11, 12], True, "PEG/pFCT balances, coinbase and burn history, pn_winners, pn_grade"),
@@ -21,7 +21,7 @@ TABLE = {
     "C14": (["staking"], ["eras", "zerocollide"], [1, 2, 3, 6, 7], True, "balances, snapshots and staking coinbase rows"),
     "C15": (["align", "zeroing"], ["eras", "staking", "zerocollide"], [1, 6, 7], True, "balances of the listed addresses and coinbase rows"),
     "C16": (["bank"], ["bankmixed", "eras"], [1, 5, 7], True, "balances, pn_bank rows, yields and refunds"),
-    "C17": (["bank", "dups", "corners"], ["eras", "staking", "admission"], [1, 6, 7, 8, 9, 10], True, "history, lookup, status and balances"),
+    "C17": (["bank", "dups", "corners", "avgzero"], ["eras", "staking", "admission"], [1, 6, 7, 8, 9, 10], True, "history, lookup, status and balances"),
     "C01": (["eras", "staking"], ["bank", "top100"], list(range(1, 13)), True, "every ledger table"),
 }
 
